@@ -1,0 +1,271 @@
+//! Verification hooks. Only compiled with the (off by default) `verif_hooks` feature.
+//!
+//! Nothing in here changes the behaviour of the crate: the hooks only count which code paths
+//! were taken, record events in thread local logs and re-export crate private items so that an
+//! external monitor can observe them.
+
+use alloc::vec::Vec;
+use core::cell::{Cell, RefCell};
+
+macro_rules! features {
+    ($($name:ident),* $(,)?) => {
+        /// Code paths that report when they are taken
+        #[allow(non_camel_case_types)]
+        #[derive(Copy, Clone, Debug, PartialEq, Eq)]
+        #[repr(usize)]
+        pub enum Feat { $($name),* , _COUNT }
+        /// Names of all the code paths in [Feat], indexed by `Feat as usize`
+        pub const FEAT_NAMES: &[&str] = &[$(stringify!($name)),*];
+    };
+}
+
+features!(
+    // frame header
+    fh_single_segment,
+    fh_window_descriptor,
+    fh_dict_id_1,
+    fh_dict_id_2,
+    fh_dict_id_4,
+    fh_fcs_1,
+    fh_fcs_2,
+    fh_fcs_4,
+    fh_fcs_8,
+    fh_checksum,
+    fh_skippable,
+    // blocks
+    blk_raw,
+    blk_rle,
+    blk_compressed,
+    blk_last,
+    // literals section
+    lit_raw,
+    lit_rle,
+    lit_compressed,
+    lit_treeless,
+    lit_1stream,
+    lit_4streams,
+    lit_size_format_0,
+    lit_size_format_1,
+    lit_size_format_2,
+    lit_size_format_3,
+    huf_weights_direct,
+    huf_weights_fse,
+    // sequences section
+    seq_none,
+    seq_count_1byte,
+    seq_count_2byte,
+    seq_count_3byte,
+    seq_ll_predefined,
+    seq_ll_rle,
+    seq_ll_fse,
+    seq_ll_repeat,
+    seq_of_predefined,
+    seq_of_rle,
+    seq_of_fse,
+    seq_of_repeat,
+    seq_ml_predefined,
+    seq_ml_rle,
+    seq_ml_fse,
+    seq_ml_repeat,
+    seq_with_rle_path,
+    seq_without_rle_path,
+    bits_triple_fast,
+    bits_triple_slow,
+    // sequence execution
+    exec_rep1,
+    exec_rep2,
+    exec_rep3,
+    exec_rep1_ll0,
+    exec_rep2_ll0,
+    exec_rep3_ll0,
+    exec_new_offset,
+    exec_ml0,
+    // decode buffer
+    buf_repeat_plain,
+    buf_repeat_chunked,
+    buf_repeat_dict_inside,
+    buf_repeat_dict_straddle,
+    buf_repeat_dict_missing,
+    buf_repeat_too_far,
+    buf_drain_two_slices,
+    buf_drain_partial,
+    // ring buffer
+    ring_grow,
+    ring_efw_contig_src,
+    ring_efw_contig_src_split_dst,
+    ring_efw_wrapped_src_second,
+    ring_efw_wrapped_src_first,
+    ring_efw_wrapped_src_both,
+    ring_copy_single,
+    ring_copy_multi,
+    ring_copy_memcpy,
+    // encoder
+    enc_blk_raw,
+    enc_blk_rle,
+    enc_blk_compressed,
+    enc_blk_raw_fallback,
+    enc_blk_empty,
+    enc_lit_raw,
+    enc_lit_raw_fallback,
+    enc_lit_huf_new,
+    enc_lit_huf_treeless,
+    enc_huf_weights_direct,
+    enc_huf_weights_fse,
+    enc_huf_1stream,
+    enc_huf_4streams,
+    enc_seq_none,
+    enc_seqnum_1byte,
+    enc_seqnum_2byte,
+    enc_seqnum_3byte,
+    // match generator
+    mg_match,
+    mg_match_older_entry,
+    mg_collision_rejected,
+    mg_evict,
+    mg_pool_reuse,
+);
+
+const N: usize = Feat::_COUNT as usize;
+
+std::thread_local! {
+    static COUNTERS: RefCell<[u64; N]> = const { RefCell::new([0; N]) };
+    static SEQ_LOG_ON: Cell<bool> = const { Cell::new(false) };
+    static SEQ_LOG: RefCell<Vec<SeqEvent>> = const { RefCell::new(Vec::new()) };
+    static SEQ_DROPPED: Cell<u64> = const { Cell::new(0) };
+    static ENC_LOG_ON: Cell<bool> = const { Cell::new(false) };
+    static ENC_LOG: RefCell<Vec<EncEvent>> = const { RefCell::new(Vec::new()) };
+}
+
+/// Count one execution of a code path (per thread)
+#[inline]
+pub fn hit(f: Feat) {
+    COUNTERS.with(|c| c.borrow_mut()[f as usize] += 1);
+}
+
+/// Return this thread's counters and reset them to zero
+pub fn take_counters() -> [u64; N] {
+    COUNTERS.with(|c| core::mem::replace(&mut *c.borrow_mut(), [0; N]))
+}
+
+/// Number of code paths that are counted
+pub const fn num_feats() -> usize {
+    N
+}
+
+/// One executed sequence, as seen by the decoder right before the match is copied
+#[derive(Copy, Clone, Debug, PartialEq, Eq)]
+pub struct SeqEvent {
+    /// Literal length of the sequence
+    pub ll: u32,
+    /// Match length of the sequence
+    pub ml: u32,
+    /// Offset value as decoded from the bitstream (before repeat offset resolution)
+    pub of_value: u32,
+    /// The offset that is actually used for the copy
+    pub offset: u32,
+    /// Bytes in the decode buffer before the match is copied (literals already pushed)
+    pub buffer_len: usize,
+    /// Window size of the frame
+    pub window_size: usize,
+    /// Length of the dictionary content in use
+    pub dict_len: usize,
+}
+
+/// Sequence events above this number are counted but not kept
+pub const SEQ_LOG_CAP: usize = 1 << 20;
+
+/// Switch recording of [SeqEvent]s on or off for this thread. Clears the log
+pub fn seq_log_enable(on: bool) {
+    SEQ_LOG_ON.with(|x| x.set(on));
+    SEQ_LOG.with(|l| l.borrow_mut().clear());
+    SEQ_DROPPED.with(|x| x.set(0));
+}
+
+/// Take the recorded sequence events and the number of events that were dropped because of [SEQ_LOG_CAP]
+pub fn take_seq_log() -> (Vec<SeqEvent>, u64) {
+    let dropped = SEQ_DROPPED.with(|x| x.replace(0));
+    (
+        SEQ_LOG.with(|l| core::mem::take(&mut *l.borrow_mut())),
+        dropped,
+    )
+}
+
+#[inline]
+pub(crate) fn seq_event(ev: impl FnOnce() -> SeqEvent) {
+    if SEQ_LOG_ON.with(|x| x.get()) {
+        SEQ_LOG.with(|l| {
+            let mut l = l.borrow_mut();
+            if l.len() < SEQ_LOG_CAP {
+                l.push(ev());
+            } else {
+                SEQ_DROPPED.with(|x| x.set(x.get() + 1));
+            }
+        });
+    }
+}
+
+/// What the compressor did for one block
+#[derive(Copy, Clone, Debug, PartialEq, Eq, Hash)]
+pub enum EncEvent {
+    /// A block header was written
+    Block {
+        /// 0 = raw, 1 = rle, 2 = compressed
+        block_type: u8,
+        /// the compressed block was discarded and the block was stored raw instead
+        raw_fallback: bool,
+        last_block: bool,
+        /// size of the input of this block
+        input_size: u32,
+        /// the size field of the block header
+        block_size: u32,
+    },
+    /// A literals section was written (inside a compressed block, which may be discarded later)
+    Literals {
+        /// 0 = raw, 2 = compressed with a new table, 3 = treeless
+        mode: u8,
+        /// huffman encoding was tried but was not smaller than the raw literals
+        raw_fallback: bool,
+        num_literals: u32,
+    },
+    /// A sequences section was written (inside a compressed block, which may be discarded later)
+    Sequences { num_sequences: u32 },
+}
+
+/// Switch recording of [EncEvent]s on or off for this thread. Clears the log
+pub fn enc_log_enable(on: bool) {
+    ENC_LOG_ON.with(|x| x.set(on));
+    ENC_LOG.with(|l| l.borrow_mut().clear());
+}
+
+/// Take the recorded encoder events
+pub fn take_enc_log() -> Vec<EncEvent> {
+    ENC_LOG.with(|l| core::mem::take(&mut *l.borrow_mut()))
+}
+
+#[inline]
+pub(crate) fn enc_event(ev: EncEvent) {
+    if ENC_LOG_ON.with(|x| x.get()) {
+        ENC_LOG.with(|l| l.borrow_mut().push(ev));
+    }
+}
+
+/// FNV-1a, used for state fingerprints
+pub struct Fnv(pub u64);
+
+impl Default for Fnv {
+    fn default() -> Self {
+        Fnv(0xcbf29ce484222325)
+    }
+}
+
+impl Fnv {
+    pub fn bytes(&mut self, data: &[u8]) {
+        for b in data {
+            self.0 ^= u64::from(*b);
+            self.0 = self.0.wrapping_mul(0x100000001b3);
+        }
+    }
+    pub fn u64(&mut self, x: u64) {
+        self.bytes(&x.to_le_bytes());
+    }
+}
